@@ -34,14 +34,14 @@ echo "demo exit with change: $with ; without: $without"
 fi
 [ "$PHASE" = "A" ] && { echo "{\"id\": \"$id\", \"demo_exit_with_change\": $with, \"demo_exit_without_change\": $without}" > "$out/verify-demo.json"; exit 0; }
 echo "== my checks against the change"
-cd /repo || exit 2
+cd "${REPO_DIR:-/repo}" || exit 2
 git diff --quiet || { echo "refusing: /repo dirty"; exit 2; }
 git apply "$out/patch.diff" || { echo "patch does not apply to /repo"; exit 2; }
-trap 'git -C /repo checkout -- .' EXIT
+trap 'git -C "${REPO_DIR:-/repo}" checkout -- .' EXIT
 mkdir -p /tmp/mutant-verif-out; cp /verif/KNOWN_FINDINGS.txt /tmp/mutant-verif-out/
 caught=""
 for c in ${CHECKS:-C01 C02 C03 C04 C05 C06 C07 C08 C09 C10 C11 C12 C13 C14 C15 C16 C17 C18 C19}; do
-    o=$(cd /verif && VERIF_DIR_OVERRIDE=/tmp/mutant-verif-out ./check $c quick 2>&1); code=$?
+    o=$(cd "${VERIF_ROOT:-/verif}" && VERIF_DIR_OVERRIDE=/tmp/mutant-verif-out ./check $c quick 2>&1); code=$?
     if [ $code -ne 0 ]; then
         caught="$caught $c(exit=$code)"
         echo "$c exit=$code: $(echo "$o" | grep -m1 -E 'violation\[|MACHINERY' | cut -c1-260)"
